@@ -442,7 +442,7 @@ PROPS = {
 PROPS.update({
     'C07': dict(
         explanation='theorems: clone is one Clone::clone per field in order into the same variant; clone_from is one clone_from per field for the same variant / struct and a clone of the source otherwise (clone_from_spec). L1; L2 `cloneRun`: expected values and call logs computed in Lean from Sem (Copy alongside, split lists, bound(..) on fields and variants, generic field types), plus call-recording programs and std twins.',
-        theorems=[(CMP + 'Witness', ['DX.fromFields_indexDistinct']), (CMP + 'C07', ['DX.clone_fieldwise', 'DX.clone_struct_fields', 'DX.clone_enum_fields',
+        theorems=[(CMP + 'Witness', ['DX.fromFields_indexDistinct', 'DX.fromVariants_indexDistinct', 'DX.clone_enum_trace_pipeline']), (CMP + 'C07', ['DX.clone_fieldwise', 'DX.clone_struct_fields', 'DX.clone_enum_fields',
                                  'DX.clone_from_same_variant', 'DX.clone_from_other_variant', 'DX.clone_from_spec'])],
         l1=[('basic', 4000, 150000), ('all', 3000, 100000)],
         extra=extras(extra_cmp_l2('cloneRun', None, 480, 9600), extra_programs(l2gen.gen_c07_program, 320, 6400, per=40, what='clone / clone_from differ from the documented field-wise behaviour (value, calls made on the fields, or the source changed)'), extra_twins(360, 6000)),
@@ -450,7 +450,7 @@ PROPS.update({
     ),
     'C08': dict(
         explanation='theorems: the eight reference forms are emitted in the documented order and each acts field-wise with the left operand on the left, one call per field (bin/assign/un_fieldwise, forms_agree). L1; L2 `opsRun` from Sem over a free monoid that records operator, operand order and reference form (generic fields, field-level bound(..)).',
-        theorems=[(CMP + 'Witness', ['DX.fromFields_indexDistinct']), ('DeriveExModel.Props.Tables', ['DX.trait_table_model', 'DX.trait_table_complete']), (CMP + 'C08', ['DX.forms_emitted', 'DX.ops_one_impl_per_form', 'DX.bin_fieldwise', 'DX.assign_fieldwise',
+        theorems=[(CMP + 'Witness', ['DX.fromFields_indexDistinct', 'DX.bin_fieldwise_pipeline']), ('DeriveExModel.Props.Tables', ['DX.trait_table_model', 'DX.trait_table_complete']), (CMP + 'C08', ['DX.forms_emitted', 'DX.ops_one_impl_per_form', 'DX.bin_fieldwise', 'DX.assign_fieldwise',
                                  'DX.un_fieldwise', 'DX.ops_fields', 'DX.forms_agree'])],
         l1=[('ops', 4000, 150000), ('all', 3000, 100000)],
         extra=extras(extra_cmp_l2('opsRun', None, 480, 9600), extra_programs(l2gen.gen_c08_program, 480, 9600, per=60, what='an operator derived from the struct definition does not act field-wise (value, operand order, reference form, call count or a borrowed operand changed)')),
